@@ -205,7 +205,10 @@ class PersImage(TransformerMixin):
     def to_landscape(diagram):
         """Convert a diagram to a landscape
         (b,d) -> (b, d-b)
+
+        The input is left untouched; the converted copy is returned.
         """
+        diagram = np.copy(diagram)
         diagram[:, 1] -= diagram[:, 0]
 
         return diagram
